@@ -177,7 +177,8 @@ def rand_item(rng, names, n, labels):
         return {'op': 'setLabelSlice', 'name': nm(), 'a': a, 'b': b, 'step': rng.choice([None, None, 1, 2, 3]),
                 'v': enc_operand(rand_operand(rng, rng.choice([1, 2, n])))}
     if r < 0.86:
-        ks = rng.sample(known + ['Zz'], k=min(len(known) + 1, rng.choice([1, 2, 2, 3])))
+        pool = list(dict.fromkeys(known + ['Zz']))      # keyword arguments: keys are unique
+        ks = rng.sample(pool, k=min(len(pool), rng.choice([1, 2, 2, 3])))
         return {'op': 'replaceValues', 'kvs': [[k, enc_operand(rand_operand(rng, n))] for k in ks]}
     if r < 0.94:
         return {'op': 'setValues', 'v': enc_operand(values_operand(rng, known, n))}
@@ -207,3 +208,280 @@ def random_case(rng):
             names.append(it['name'])     # optimistic: may have failed, then the name is simply unknown later
         ops.append(it)
     return {'flavour': fl, 'strict': rng.random() < 0.2, 'span': spec, 'ops': ops}
+
+
+# ---- exhaustive core -----------------------------------------------------------------------------------------------
+
+CORE_SPAN = {'type': 'range', 'args': [2000, 2003]}
+CORE_SETUP = [
+    {'op': 'addVariable', 'name': 'A', 'v': enc_operand(1.0), 'dtype': None},
+    {'op': 'addVariable', 'name': 'B', 'v': enc_operand([1, 2, 3]), 'dtype': None},
+]
+
+
+def core_alphabet():
+    L = enc_label
+    E = enc_operand
+    return [
+        {'op': 'addVariable', 'name': 'C', 'v': E(2.5), 'dtype': 'i'},
+        {'op': 'addVariable', 'name': 'A', 'v': E(1), 'dtype': None},
+        {'op': 'addVariable', 'name': 'C', 'v': E([1, 2]), 'dtype': None},
+        {'op': 'addVariable', 'name': 'S', 'v': E('ab'), 'dtype': None},
+        {'op': 'addVariable', 'name': 'C', 'v': E([[1, 2], [3, 4], [5, 6]]), 'dtype': None},
+        {'op': 'setAttr', 'name': 'A', 'v': E(2.5)},
+        {'op': 'setAttr', 'name': 'A', 'v': E([4, 5, 6])},
+        {'op': 'setAttr', 'name': 'A', 'v': E([4, 5])},
+        {'op': 'setAttr', 'name': 'A', 'v': E([[1, 2], [3, 4], [5, 6]])},
+        {'op': 'setAttr', 'name': 'A', 'v': E([[7, 8, 9]])},
+        {'op': 'setAttr', 'name': 'A', 'v': E(np.array([7, 8, 9]))},
+        {'op': 'setAttr', 'name': 'A', 'v': E(np.array([7, 8]))},
+        {'op': 'setAttr', 'name': 'B', 'v': E([0.5, 2.5, -1.75])},
+        {'op': 'setAttr', 'name': 'B', 'v': E(np.array([1.0]))},
+        {'op': 'setAttr', 'name': 'Q', 'v': E(1)},
+        {'op': 'setAttr', 'name': 'Ab', 'v': E(1)},
+        {'op': 'setItem', 'name': 'A', 'v': E((1, 2, 3))},
+        {'op': 'setItem', 'name': 'Z', 'v': E(1)},
+        {'op': 'setItem', 'name': 'B', 'v': E(['12', 'a', '7'])},
+        {'op': 'setPos', 'name': 'A', 'i': -1, 'v': E(9)},
+        {'op': 'setPos', 'name': 'A', 'i': 5, 'v': E(9)},
+        {'op': 'setPosSlice', 'name': 'B', 'a': 1, 'b': None, 'step': None, 'v': E([8, 9])},
+        {'op': 'setLabel', 'name': 'A', 'label': L(2001), 'v': E(True)},
+        {'op': 'setLabel', 'name': 'A', 'label': L(1999), 'v': E(1)},
+        {'op': 'setLabelSlice', 'name': 'A', 'a': L(2000), 'b': L(2001), 'step': None, 'v': E([7, 8])},
+        {'op': 'setLabelSlice', 'name': 'B', 'a': L(2000), 'b': None, 'step': 2, 'v': E(2.5)},
+        {'op': 'setLabelSlice', 'name': 'B', 'a': L(2000), 'b': None, 'step': None, 'v': E([1, 2])},
+        {'op': 'replaceValues', 'kvs': [['A', E(1)], ['B', E([4, 5, 6])]]},
+        {'op': 'replaceValues', 'kvs': [['A', E([1, 2])], ['B', E(0)]]},
+        {'op': 'setValues', 'v': E(0)},
+        {'op': 'setValues', 'v': E(np.array([[1.5, 2.5, 3.5], [4.0, 5.0, 6.0]]))},
+        {'op': 'setValues', 'v': E(np.array([[1, 2, 3], [4, 5, 6], [7, 8, 9]]))},
+        {'op': 'setValues', 'v': E(np.array([1.0, 2.0, 3.0]))},
+        {'op': 'setStrict', 'b': True},
+        {'op': 'setStrict', 'b': False},
+        {'op': 'addAttribute', 'name': 'P'},
+        {'op': 'addAttribute', 'name': 'A'},
+    ]
+
+
+def core_cases(max_len):
+    alpha = core_alphabet()
+    for strict in (False, True):
+        for L in range(1, max_len + 1):
+            for seq in itertools.product(alpha, repeat=L):
+                yield {'flavour': 'container', 'strict': strict, 'span': CORE_SPAN, 'ops': CORE_SETUP + list(seq)}
+
+
+# ---- oracle: the property restated against the real code ------------------------------------------------------------
+
+WHOLE = ('setAttr', 'setItem')
+NUMERIC = ('f', 'i', 'b')
+
+
+def is_rect_outer(j, n):
+    return j['t'] == 'nested' and len({len(r) for r in j['rows']}) <= 1 and len(j['rows']) == n
+
+
+def scalar_kind(j):
+    return j['v'][0] if j['t'] == 'scalar' else None
+
+
+def misfit(item, n, existing):
+    """Reason why the property requires this single-variable assignment to raise (None if it does not)."""
+    op = item['op']
+    name = item.get('name')
+    if op == 'addVariable':
+        if name in existing:
+            return 'duplicate-name'
+        c = cc.operand_count(item['v'])
+        if c is None or c not in (1, n):
+            return 'wrong-size'
+        return None
+    if op in ('setItem', 'setPos', 'setPosSlice', 'setLabel', 'setLabelSlice') and name not in existing:
+        return 'unknown-name'
+    if op in WHOLE and name in existing:
+        c = cc.operand_count(item['v'])
+        if c is None or c not in (1, n):
+            return 'wrong-size'
+    if op in ('setPos', 'setLabel') and name in existing:
+        c = cc.operand_count(item['v'])
+        if c is None or c != 1:
+            return 'wrong-size'
+    return None
+
+
+class Oracle:
+    """C09 restated against the object, step by step.  Independent of the Lean model."""
+
+    def __init__(self, rep, case, extra_size=0):
+        self.rep, self.case = rep, case
+        self.created = {}
+        self.broken = False
+        self.prev_attrs = None
+        self.prev_strict = None
+        self.prev_keys = None
+        self.n_ok = self.n_raised = 0
+
+    def violate(self, key, what, k):
+        self.rep.violate(key, what, {'case': {**self.case, 'ops': self.case['ops'][:k + 1]}, 'at': k})
+
+    def __call__(self, obj, item, before, out, exc, decl):
+        n = len(obj.span)
+        k = -1 if item is None else self.k
+        if item is None:
+            self.k = 0
+            self.extra = obj.size - len(decl) * n
+        else:
+            self.k += 1
+            if out == 'ok':
+                self.n_ok += 1
+            else:
+                self.n_raised += 1
+        if self.broken:
+            return
+        op = item['op'] if item else None
+        # 1. every series: one-dimensional, one element per period, dtype as created
+        for name in obj.index:
+            a = np.asarray(obj[name])
+            if name not in self.created:
+                self.created[name] = a.dtype
+                want = item.get('dtype') if item and op == 'addVariable' else None
+                if want is None and item and op == 'addVariable' and self.case['flavour'] != 'container':
+                    want = 'f'     # ModelInterface.add_variable: dtype=None means the model's dtype (float here)
+                if want is not None and a.dtype.kind != want:
+                    self.violate('created-dtype-mismatch', f'{name} created with dtype={want} has dtype {a.dtype}', k)
+            if a.ndim != 1 or a.shape[0] != n:
+                self.broken = True
+                nested = item is not None and (
+                    (op in WHOLE and is_rect_outer(item['v'], n)) or
+                    (op == 'replaceValues' and any(is_rect_outer(v, n) for _, v in item['kvs'])))
+                key = 'nested-list-outer-len-eq-span' if nested else f'series-not-1d:{op}'
+                self.violate(key, f'after {op}: {name}.shape == {a.shape} on a {n}-period span', k)
+                return
+            if a.dtype != self.created[name]:
+                self.broken = True
+                self.violate(f'dtype-changed:{op}', f'after {op}: {name} was created {self.created[name]}, is {a.dtype}', k)
+                return
+        # 2. values is the stack in declaration order, size its element count
+        try:
+            v = obj.values
+        except Exception as e:  # noqa: BLE001
+            self.violate('values-raises', f'obj.values raised {type(e).__name__}', k)
+            return
+        want_shape = (len(decl), n) if decl else (0,)
+        if v.shape != want_shape:
+            self.violate('values-not-stack', f'values.shape {v.shape}, expected {want_shape} for {decl}', k)
+        else:
+            for r, name in enumerate(decl):
+                if name not in obj.index or v[r].tobytes() != np.asarray(obj[name]).astype(v.dtype).tobytes():
+                    self.violate('values-not-stack', f'row {r} of values is not the series {name}', k)
+                    break
+        if obj.size != v.size + self.extra:
+            self.violate('size-mismatch', f'size {obj.size}, values has {v.size} elements (+{self.extra} in submodels)', k)
+        if item is None:
+            self.prev_attrs, self.prev_strict = list(obj._attributes), bool(obj.strict)
+            self.prev_keys = set(obj.__dict__)
+            return
+        # 3. an assignment that cannot fit raises and leaves every series unchanged
+        why = misfit(item, n, before)
+        if why is not None:
+            if out == 'ok':
+                key = f'accepted-misfit:{why}:{op}'
+                if (op in ('setPos', 'setLabel') and why == 'wrong-size'
+                        and before[item['name']].dtype.kind == 'b'):
+                    key = 'bool-element-accepts-sequence'    # NumPy stores bool(list) / bool(ndarray)
+                self.violate(key, f'{op} {item.get("name")} should not fit ({why}) but succeeded', k)
+            else:
+                after = cc.snapshot(obj)
+                if list(after) != list(before) or any(not cc.same_array(after[x], before[x]) for x in before):
+                    self.violate(f'failed-assign-changed-state:{op}', f'{op} raised {out} ({why}) but series changed', k)
+        # 4. strict
+        attrs = list(obj._attributes)
+        if self.prev_strict:
+            name = item.get('name')
+            allowed = {name} if op == 'addAttribute' else {'strict'} if op == 'setStrict' else set()
+            new = [a for a in attrs if a not in self.prev_attrs and a not in allowed]
+            newkeys = {x for x in set(obj.__dict__) - self.prev_keys
+                       if not (op == 'addVariable' and x == '_' + name) and not (op == 'addAttribute' and x == name)}
+            if new or newkeys:
+                self.violate(f'strict-new-attribute:{op}', f'strict=True but {op} created attribute(s) {new or sorted(newkeys)}', k)
+            if op == 'setAttr' and name not in before and name not in self.prev_attrs and name != 'strict':
+                if out == 'ok':
+                    self.violate('strict-bypassed', f'strict=True: obj.{name} = ... did not raise', k)
+                elif out == 'AttributeError':
+                    alts = cc.closest(name, [d for d in decl if d in before or d in obj.index])
+                    if len(alts) == 1 and f"'{alts[0]}'" not in str(exc):
+                        self.violate('strict-no-suggestion', f'closest variable to {name!r} is {alts[0]!r}; message: {exc}', k)
+            if op == 'setAttr' and name in before and scalar_kind(item['v']) in NUMERIC and out != 'ok':
+                self.violate('strict-blocks-existing', f'strict=True: update of existing variable {name} raised {out}', k)
+            if (op == 'addVariable' and name not in before and scalar_kind(item['v']) in NUMERIC
+                    and item.get('dtype') in (None, 'f', 'i', 'b') and out != 'ok'):
+                self.violate('strict-blocks-add-variable', f'strict=True: add_variable({name!r}, scalar) raised {out}', k)
+            if op == 'setValues' and scalar_kind(item['v']) in NUMERIC and out in ('AttributeError', 'NotImplementedError'):
+                self.violate('strict-blocks-values-setter', f'strict=True: obj.values = <scalar> raised {out}', k)
+        self.prev_attrs, self.prev_strict, self.prev_keys = attrs, bool(obj.strict), set(obj.__dict__)
+
+
+def check_cases(ctx, rep, cases, label):
+    lines, impls, kept = [], [], []
+    for case in cases:
+        orc = Oracle(rep, case)
+        line, impl_out, obj = cc.run_case(case, observer=orc)
+        key = json.dumps(case, sort_keys=True)
+        nontrivial = (orc.n_ok >= 1 and orc.n_raised >= 1) or orc.n_ok >= 3
+        rep.case(key, nontrivial=nontrivial,
+                 sample={'flavour': case['flavour'], 'span': case['span'], 'strict': case['strict'],
+                         'ops': [o['op'] for o in case['ops']][:12], 'last': impl_out[-1][:160]}
+                 if rep.evaluations % 499 == 0 else None)
+        rep.dist[f'{label}:flavour:{case["flavour"]}'] += 1
+        rep.dist[f'{label}:len:{min(len(case["ops"]), 30) // 5 * 5}+'] += 1
+        for it, o in zip(case['ops'], impl_out):
+            rep.dist[f'op:{it["op"]}:{o.split("|")[0]}'] += 1
+        if line is None:
+            rep.dist['outside-model'] += 1
+            continue
+        lines.append(line)
+        impls.append(impl_out)
+        kept.append(case)
+    if not ctx.oracle_only and lines:
+        for case, line, impl_out, reply in zip(kept, lines, impls, ctx.drive(lines)):
+            cc.compare(rep, 'container history: model != impl', case, line, impl_out, reply)
+
+
+def run(ctx, rep):
+    quick = ctx.tier == 'quick'
+    core = list(core_cases(2 if quick else 2))
+    check_cases(ctx, rep, core, 'core')
+    n_random = (2500 if quick else 100000) * ctx.scale
+    rng = ctx.sub_rng('random')
+    for chunk in range(0, n_random, 2500):
+        check_cases(ctx, rep, [random_case(rng) for _ in range(min(2500, n_random - chunk))], 'random')
+    if not quick:
+        rng3 = ctx.sub_rng('core3')
+        alpha = core_alphabet()
+        triples = [{'flavour': rng3.choice(['container', 'container', 'model']), 'strict': rng3.random() < 0.3,
+                    'span': CORE_SPAN, 'ops': CORE_SETUP + [rng3.choice(alpha) for _ in range(3)]}
+                   for _ in range(30000 * ctx.scale)]
+        for chunk in range(0, len(triples), 2500):
+            check_cases(ctx, rep, triples[chunk:chunk + 2500], 'core3-sampled')
+    rep.exhaustive = False
+    rep.notes.append(f'exhaustive core: {len(core)} histories (setup + every sequence of length <= 2 over '
+                     f'{len(core_alphabet())} operations, strict and non-strict); random histories: {n_random}')
+
+
+def replay(ctx, rep, case):
+    c = case['case'] if 'case' in case and 'ops' not in case else case
+    orc = Oracle(rep, c)
+    line, impl_out, obj = cc.run_case(c, observer=orc)
+    for it, o in zip(c['ops'], impl_out):
+        print('  ', json.dumps(it)[:150], '->', o[:200])
+    if line is not None:
+        try:
+            reply = ctx.drive([line])[0].split('\t')
+            for k, (a, b) in enumerate(zip(reply, impl_out)):
+                if a != b:
+                    print(f'  model differs at item {k}:\n    model: {a[:300]}\n    impl : {b[:300]}')
+                    break
+            else:
+                print('  model agrees with the implementation on every item')
+        except Exception as e:  # noqa: BLE001
+            print('  model: <driver unavailable>', e)
